@@ -14,7 +14,7 @@ use vbase::{ensure, fail};
 use crate::family::{self, Fam, FamVisitor, G};
 use crate::model_ser::{cmp_output, to_model, SV};
 
-pub const RULE: &str = "cases are Rust values: (a) generated values of the 60-type family (integers of all widths, floats, strings, options, tuples, sequences, maps with string/integer/bool/char/enum keys, structs, all enum shapes, flatten, bytes, recursive trees) plus non-finite floats and invalid key kinds; (b) strings of every length 0..=200 with each escapable byte (quote, backslash, C0 controls, DEL, multi-byte) at every position 0..=130, materialised at every start offset 0..=64 of a heap buffer, ending exactly at a PROT_NONE guard page, and starting right after one; (c) random Unicode strings up to 70,000 bytes. Each value is written through to_string, to_vec, to_writer over Vec, BytesMut writers, BufferedWriter, io::BufWriter, &mut W and Box<W>, compact and pretty; the output must be UTF-8, accepted by the reference recogniser, its reference parse equal to the value's model (independent model serializer; string tokens checked for the escaping discipline; numbers by value), pretty == reindent(compact) byte for byte, all writers byte-identical. Fault enumeration: a writer that fails once n bytes were accepted, for sampled/all n in 0..len, direct and as inner writer of BufferedWriter / io::BufWriter, plus writers that accept at most k bytes per call: the call must return Err (never Ok, never panic) and the accepted bytes must be a prefix of the correct output. Non-trivial = value containing a string that needs an escape or is >= 32 bytes, or nesting >= 2; distinct by case encoding.";
+pub const RULE: &str = "cases are Rust values: (a) generated values of the 71-type family (incl. field/variant names that need escaping, nullable newtype payloads, strings written piecewise through collect_str with empty pieces) (integers of all widths, floats, strings, options, tuples, sequences, maps with string/integer/bool/char/enum keys, structs, all enum shapes, flatten, bytes, recursive trees) plus non-finite floats and invalid key kinds; (b) strings of every length 0..=200 with each escapable byte (quote, backslash, C0 controls, DEL, multi-byte) at every position 0..=130, materialised at every start offset 0..=64 of a heap buffer, ending exactly at a PROT_NONE guard page, and starting right after one; (c) random Unicode strings up to 70,000 bytes. Each value is written through to_string, to_vec, to_writer over Vec, BytesMut writers, BufferedWriter, io::BufWriter, &mut W and Box<W>, compact and pretty; the output must be UTF-8, accepted by the reference recogniser, its reference parse equal to the value's model (independent model serializer; string tokens checked for the escaping discipline; numbers by value), pretty == reindent(compact) byte for byte, all writers byte-identical. Fault enumeration: a writer that fails once n bytes were accepted, for sampled/all n in 0..len, direct and as inner writer of BufferedWriter / io::BufWriter, plus writers that accept at most k bytes per call: the call must return Err (never Ok, never panic) and the accepted bytes must be a prefix of the correct output. Non-trivial = value containing a string that needs an escape or is >= 32 bytes, or nesting >= 2; distinct by case encoding.";
 pub const ASSUMPTIONS: &[&str] = &["serde's JSON data-model convention (as documented by serde_json) defines the value's model", "refjson parser and escaping rule", "Rust std float/integer parsing"];
 
 // ---- writers ------------------------------------------------------------------------------
@@ -176,6 +176,16 @@ pub fn check_value<T: Serialize + ?Sized>(x: &T, tname: &str, obs: &mut Obs, fau
         sonic_rs::to_writer_pretty(&mut io_bw, x).map_err(e)?;
         let inner = io_bw.into_inner().map_err(|_| Fail::new("C05/writer-error", "BufWriter flush failed"))?;
         same!("io::BufWriter<Vec> pretty", inner, pretty.as_bytes());
+        // pretty output through the remaining writers
+        let mut w = BytesMut::new().writer();
+        sonic_rs::to_writer_pretty(&mut w, x).map_err(e)?;
+        same!("to_writer_pretty(BytesMut writer)", w.into_inner().to_vec(), pretty.as_bytes());
+        let mut sink = Vec::new();
+        sonic_rs::to_writer_pretty(BufferedWriter::new(&mut sink), x).map_err(e)?;
+        same!("BufferedWriter<Vec> pretty", sink, pretty.as_bytes());
+        let mut sink = Chunky { out: Vec::new(), cap: 5 };
+        sonic_rs::to_writer_pretty(BufferedWriter::new(&mut sink), x).map_err(e)?;
+        same!("BufferedWriter<Chunky> pretty", sink.out, pretty.as_bytes());
         let mut boxed: Box<Vec<u8>> = Box::default();
         sonic_rs::to_writer(&mut boxed, x).map_err(e)?;
         same!("Box<Vec>", *boxed, cb);
